@@ -116,12 +116,12 @@ export function* generate({ tier, seed }) {
   };
   // single v-model: full product
   for (const host of HOSTS) for (const tk of TARGETS) for (const af of ARGS) for (const mf of MODS) for (const nb of ['none', 'plainBefore', 'spreadBefore', 'plainAfter', 'spreadAfter']) {
-    if (tier === 'quick' && nb !== 'none' && rng.bool(0.7)) continue;
+    if (tier === 'quick' && nb !== 'none' && rng.bool(0.3)) continue;
     const g = emit(host, [[tk, af, mf]], 'single', nb, tier === 'quick' ? [rng.pick(OPTS), rng.pick(OPTS)] : OPTS);
     if (g) yield g;
   }
   // v-models lists (components) and the same entries as separate v-model attributes
-  const nLists = tier === 'quick' ? 300 : 4000;
+  const nLists = tier === 'quick' ? 2500 : 30000;
   for (let i = 0; i < nLists; i++) {
     const len = 1 + rng.int(3);
     const entries = [];
